@@ -101,7 +101,7 @@ Definition ahead_run (srcpat rbufpat : list nat) (nreads : nat) (doc : bytes) : 
   match sdec_new (cut_doc srcpat doc) with
   | NewErr _ e p => bs "x " ++ rend_print (Some (RErr e)) ++ bs " c=" ++ dec_print (p_consumed (sp_fill p))
   | NewOk _ d =>
-      let '(b, e, d') := read_all tks sdec_read nreads (size_fun rbufpat) O d [] in
+      let '(b, e, d') := read_all tks sdec_read nreads (size_fun rbufpat) 0 d [] in
       bs "x" ++ hex_encode b ++ [SP] ++ rend_print e ++ bs " c=" ++ dec_print (p_consumed (sp_fill (d_p d')))
   end.
 
@@ -109,7 +109,7 @@ Definition aheadg_run (rbufpat : list nat) (nreads : nat) (doc : bytes) : bytes 
   match sdec_new [doc] with
   | NewErr _ e p => bs "x " ++ rend_print (Some (RErr e)) ++ bs " c=ok"
   | NewOk _ d =>
-      let '(b, e, d') := read_all tks sdec_read nreads (size_fun rbufpat) O d [] in
+      let '(b, e, d') := read_all tks sdec_read nreads (size_fun rbufpat) 0 d [] in
       bs "x" ++ hex_encode b ++ [SP] ++ rend_print e ++ bs " c=ok"
   end.
 
